@@ -10,6 +10,7 @@ import (
 	"fmt"
 	"path"
 	"strings"
+	"time"
 
 	"github.com/influxdata/kapacitor/services/storage"
 	bolt "go.etcd.io/bbolt"
@@ -77,18 +78,38 @@ func storeConfig() storage.IndexedStoreConfig {
 
 var errInjected = errors.New("injected write failure")
 
+// flt is one injected fault: the At-th write (Put/Delete) of the transaction returns an
+// error or - Panic - panics (the update function panics after At-1 writes; the driver
+// recovers it like the HTTP recovery middleware would); At = -1: tx.Commit fails.
+type flt struct {
+	At    int
+	Panic bool
+}
+
+func (f flt) mode() string {
+	if f.Panic {
+		return "panic"
+	}
+	return "err"
+}
+
+type injectedPanic struct{}
+
 type faultStore struct {
 	inner      storage.Interface
 	op         storage.TxOperator // the same store as a TxOperator (storage.Bolt is one)
 	failAt     int                // fail the k-th write; 0: never
+	panicMode  bool               // the k-th write panics instead of returning an error
 	failCommit bool               // fail tx.Commit
 	writes     int                // writes issued by the last Update
 	fired      bool
+	open       storage.Tx // the underlying transaction of the running Update while neither committed nor rolled back
+	leaked     bool       // the last Update ended (returned or panicked) with its transaction still open
 }
 
-func (f *faultStore) set(failAt int) {
-	f.failAt, f.failCommit = failAt, false
-	if failAt < 0 {
+func (f *faultStore) set(x flt) {
+	f.failAt, f.failCommit, f.panicMode = x.At, false, x.Panic
+	if x.At < 0 {
 		f.failAt, f.failCommit = 0, true
 	}
 }
@@ -96,18 +117,29 @@ func (f *faultStore) set(failAt int) {
 func (f *faultStore) View(fn func(storage.ReadOnlyTx) error) error { return f.inner.View(fn) }
 
 // Update runs the repository's own storage.DoUpdate (begin, f, commit, deferred
-// rollback) over transactions whose writes and commit can be made to fail.
+// rollback) over transactions whose writes and commit can be made to fail or panic.
+// If DoUpdate ends - by returning or by a panic passing through - while its transaction
+// was neither committed nor rolled back, that is recorded (leaked) and the transaction is
+// rolled back here, so that the store stays usable and the driver never blocks on Bolt's
+// writer lock: the outcome is judged by the specification, not by a timeout.
 func (f *faultStore) Update(fn func(storage.Tx) error) error {
-	f.writes, f.fired = 0, false
-	if f.op != nil {
-		return storage.DoUpdate(faultOperator{f}, fn)
+	f.writes, f.fired, f.leaked, f.open = 0, false, false, nil
+	if f.op == nil {
+		return f.inner.Update(func(tx storage.Tx) error { return fn(&faultTx{Tx: tx, f: f}) })
 	}
-	return f.inner.Update(func(tx storage.Tx) error { return fn(&faultTx{Tx: tx, f: f}) })
+	defer func() {
+		if f.open != nil {
+			f.leaked = true
+			f.open.Rollback()
+			f.open = nil
+		}
+	}()
+	return storage.DoUpdate(faultOperator{f}, fn)
 }
 func (f *faultStore) Store(b ...[]byte) storage.Interface {
 	in := f.inner.Store(b...)
 	op, _ := in.(storage.TxOperator)
-	return &faultStore{inner: in, op: op, failAt: f.failAt, failCommit: f.failCommit}
+	return &faultStore{inner: in, op: op, failAt: f.failAt, failCommit: f.failCommit, panicMode: f.panicMode}
 }
 
 type faultOperator struct{ f *faultStore }
@@ -117,6 +149,7 @@ func (o faultOperator) BeginTx() (storage.Tx, error) {
 	if err != nil {
 		return nil, err
 	}
+	o.f.open = tx
 	return &faultTx{Tx: tx, f: o.f}, nil
 }
 func (o faultOperator) BeginReadOnlyTx() (storage.ReadOnlyTx, error) { return o.f.op.BeginReadOnlyTx() }
@@ -130,6 +163,9 @@ func (t *faultTx) hit() bool {
 	t.f.writes++
 	if t.f.writes == t.f.failAt {
 		t.f.fired = true
+		if t.f.panicMode {
+			panic(injectedPanic{})
+		}
 		return true
 	}
 	return false
@@ -146,12 +182,21 @@ func (t *faultTx) Delete(k string) error {
 	}
 	return t.Tx.Delete(k)
 }
+
+// Commit: an injected commit failure behaves like a failing bbolt commit, which rolls the
+// transaction back itself before it returns the error.
 func (t *faultTx) Commit() error {
+	t.f.open = nil
 	if t.f.failCommit {
 		t.f.fired = true
-		return errInjected // not committed: DoUpdate's deferred Rollback discards the transaction
+		t.Tx.Rollback()
+		return errInjected
 	}
 	return t.Tx.Commit()
+}
+func (t *faultTx) Rollback() error {
+	t.f.open = nil
+	return t.Tx.Rollback()
 }
 func (t *faultTx) Bucket(name []byte) storage.Tx { return &faultTx{Tx: t.Tx.Bucket(name), f: t.f} }
 
@@ -188,8 +233,9 @@ func openEnv(file string, wrap bool) (*env, error) {
 }
 
 func (e *env) close() {
-	if err := e.bs.CloseBolt(); err != nil {
-		rt.Fatalf("close bolt: %v", err)
+	// bolt's Close waits for open transactions: bound it like an operation
+	if res := guarded("close", func() error { return e.bs.CloseBolt() }); res != "ok" {
+		rt.Fatalf("close bolt: %v", res)
 	}
 }
 
@@ -242,27 +288,79 @@ func (e *env) applyTx(tx storage.Tx, o op, v int) error {
 // every ID and ListTx over the in-transaction grid are observed INSIDE the transaction.
 // The function returns the first operation error (rollback), errAbort if abort is set
 // (rollback), nil otherwise (commit).  Emits TxBegin and TxOp lines; the caller emits TxEnd.
-func (e *env) runTx(t *rt.Trace, ids []string, ops []op, vbase, pre, failAt int, abort bool) string {
-	t.Event("TxBegin", rt.M{"pre": pre, "failAt": failAt, "n": len(ops)})
-	err := e.is.Store().Update(func(tx storage.Tx) error {
-		for i, o := range ops {
-			err := e.applyTx(tx, o, vbase+i)
-			ev := rt.M{"op": o.Kind, "id": o.ID, "a": o.A, "v": vbase + i, "res": resOf(err), "fired": e.fs != nil && e.fs.fired}
-			if err == nil {
-				ev["get"] = e.getTx(tx, ids)
-				ev["lists"] = e.listsTx(tx, txGrid)
+// amode: "" (return nil: commit), "abort" (return errAbort at the end), "panic" (panic at the end).
+func (e *env) runTx(emit func(string, rt.M), ids []string, ops []op, vbase, pre int, f flt, amode string) string {
+	emit("TxBegin", rt.M{"pre": pre, "failAt": f.At, "fmode": f.mode(), "n": len(ops)})
+	return guarded("transaction", func() error {
+		return e.is.Store().Update(func(tx storage.Tx) error {
+			for i, o := range ops {
+				ev := rt.M{"op": o.Kind, "id": o.ID, "a": o.A, "v": vbase + i}
+				logged := false
+				err := func() error {
+					// a panic inside the operation passes through (no recover here); the line is still logged
+					defer func() {
+						if !logged {
+							ev["res"], ev["fired"] = "panic", e.fs != nil && e.fs.fired
+							emit("TxOp", ev)
+						}
+					}()
+					err := e.applyTx(tx, o, vbase+i)
+					ev["res"], ev["fired"] = resOf(err), e.fs != nil && e.fs.fired
+					if err == nil {
+						ev["get"] = e.getTx(tx, ids)
+						ev["lists"] = e.listsTx(tx, txGrid)
+					}
+					emit("TxOp", ev)
+					logged = true
+					return err
+				}()
+				if err != nil {
+					return err
+				}
 			}
-			t.Event("TxOp", ev)
-			if err != nil {
-				return err
+			switch amode {
+			case "abort":
+				return errAbort
+			case "panic":
+				panic(injectedPanic{})
 			}
-		}
-		if abort {
-			return errAbort
-		}
-		return nil
+			return nil
+		})
 	})
-	return resOf(err)
+}
+
+// stuck is thrown (as a panic in the calling goroutine) by guarded when an operation does
+// not return: the harness then diagnoses the cause structurally (see worker.attempt).
+type stuck struct{ what string }
+
+// opDeadline only triggers a diagnosis, it never decides a verdict.
+const opDeadline = 20 * time.Second
+
+// guarded runs one store operation: an injected panic is recovered here (the caller above
+// the store survives it, as kapacitor's HTTP recovery middleware does) and reported as
+// result "panic".  An operation that does not return within the deadline most likely waits
+// for Bolt's writer lock behind a transaction that was neither committed nor rolled back.
+func guarded(what string, f func() error) string {
+	done := make(chan string, 1)
+	go func() {
+		defer func() {
+			if r := recover(); r != nil {
+				if _, ok := r.(injectedPanic); !ok {
+					rt.Fatalf("unexpected panic in %s: %v", what, r)
+				}
+				done <- "panic"
+			}
+		}()
+		done <- resOf(f())
+	}()
+	timer := time.NewTimer(opDeadline)
+	defer timer.Stop()
+	select {
+	case res := <-done:
+		return res
+	case <-timer.C:
+		panic(stuck{what})
+	}
 }
 
 func (e *env) getTx(tx storage.Tx, ids []string) []any {
@@ -299,31 +397,22 @@ func (e *env) listsTx(tx storage.Tx, qs []query) []any {
 }
 
 func (e *env) apply(o op, v int) string {
-	var err error
-	switch o.Kind {
-	case "Create":
-		err = e.is.Create(&obj{o.ID, o.A, v})
-	case "Put":
-		err = e.is.Put(&obj{o.ID, o.A, v})
-	case "Replace":
-		err = e.is.Replace(&obj{o.ID, o.A, v})
-	case "Delete":
-		err = e.is.Delete(o.ID)
-	case "Rebuild":
-		err = e.is.Rebuild()
-	default:
+	return guarded(o.String(), func() error {
+		switch o.Kind {
+		case "Create":
+			return e.is.Create(&obj{o.ID, o.A, v})
+		case "Put":
+			return e.is.Put(&obj{o.ID, o.A, v})
+		case "Replace":
+			return e.is.Replace(&obj{o.ID, o.A, v})
+		case "Delete":
+			return e.is.Delete(o.ID)
+		case "Rebuild":
+			return e.is.Rebuild()
+		}
 		rt.Fatalf("unknown op %q", o.Kind)
-	}
-	switch {
-	case err == nil:
-		return "ok"
-	case err == storage.ErrObjectExists:
-		return "exists"
-	case err == storage.ErrNoObjectExists:
-		return "noexist"
-	default:
-		return "err"
-	}
+		return nil
+	})
 }
 
 // ---- observations ----
